@@ -256,3 +256,42 @@ func ProtectedLengths() {
 	}
 	vsym.Assert("L3-protected-endpoints-sign-only-under-a-32-byte-domain", vsym.Implies(res == core.ResultSucceeded, dl == 32))
 }
+
+// AttestBatchMixed: a batch in which one entry must be refused (its key has already attested a
+// higher target) and the other signed, with the keys in descending order: entry k of the answer is
+// the verdict and the signature for request k (a verdict must not travel to another entry).
+func AttestBatchMixed() {
+	ctx := context.Background()
+	vsym.SetGOMAXPROCS(procs[vsym.Choose("gomaxprocs", len(procs))])
+	in := hc.Start(ctx, vsym.TempDir("A"), &stubs.Log{}, nil)
+	order := []int{2, 0} // KeyC then KeyA: not in ascending key order
+	refused := vsym.Choose("refused-entry", 2)
+	var fs []*attFields
+	var data []*rules.SignBeaconAttestationData
+	for k := 0; k < 2; k++ {
+		f, d := symAtt(fmt.Sprintf("%d", k))
+		fs, data = append(fs, f), append(data, d)
+	}
+	// the refused entry's key has a record with a target above the requested one
+	vsym.Assume(fs[refused].t < max63-1)
+	hc.Must(in.Rules.ImportSlashingProtection(ctx, map[[48]byte]*rules.SlashingProtection{
+		hc.Keys[order[refused]]: {PubKey: hc.Keys[order[refused]][:], HighestProposedSlot: -1,
+			HighestAttestedSourceEpoch: int64(fs[refused].s), HighestAttestedTargetEpoch: int64(fs[refused].t) + 1}}))
+	names := []string{"W/c", "W/a"}
+	res, sigs := in.Signer.SignBeaconAttestations(ctx, hc.Creds(), names, [][]byte{nil, nil}, data)
+	vsym.Assert("B0-one-entry-per-request", vsym.And(len(res) == 2, len(sigs) == 2))
+	if len(res) != 2 || len(sigs) != 2 {
+		return
+	}
+	for k := 0; k < 2; k++ {
+		if k == refused {
+			vsym.Assert(fmt.Sprintf("B3-refused-request-unsigned[%d]", k), res[k] != core.ResultSucceeded && sigs[k] == nil)
+			continue
+		}
+		vsym.Assert(fmt.Sprintf("B1-well-formed-request-signed[%d]", k), res[k] == core.ResultSucceeded)
+		if res[k] == core.ResultSucceeded {
+			vsym.Reach("mixed-batch-entry-signed")
+			checkSig(fmt.Sprintf("B2-signature[%d]", k), sigs[k], hc.Keys[order[k]], fs[k].expected())
+		}
+	}
+}
